@@ -120,13 +120,18 @@ INSTANCE_ALIAS = {
     ("HSM2UIHeartbeat", "Offset"): ("ledger.hsm2dongle", "HSM2Dongle", "OFF"),
     ("HSM2SignerHeartbeat", "ErrorResult"): ("ledger.hsm2dongle", "HSM2Dongle", "ErrorResult"),
     ("HSM2UIHeartbeat", "ErrorResult"): ("ledger.hsm2dongle", "HSM2Dongle", "ErrorResult"),
+    ("PowHsmAttestation", "Offset"): ("ledger.hsm2dongle", "HSM2Dongle", "OFF"),
+    ("PowHsmAttestation", "ErrorResult"): ("ledger.hsm2dongle", "HSM2Dongle", "ErrorResult"),
 }
 SPEC_M.append(("ledger.protocol_v1", "HSM1ProtocolLedger", [
     "_error", "_translate_sign_error", "_get_pubkey", "_sign"]))
 SPEC_M.append(("ledger.protocol_v1", "HSM1ProtocolLedger", ["__internal_handle_request"]))
 SPEC_M.append(("sgx.hsm2dongle", "HSM2DongleSGX", ["echo", "unlock", "new_pin", "get_retries", "onboard"]))
+SPEC_M.append(("ledger.hsm2dongle_cmds.powhsm_attestation", "PowHsmAttestation", ["send", "run"]))
+SPEC_M.append(("ledger.hsm2dongle", "HSM2Dongle", ["get_ui_attestation", "get_powhsm_attestation"]))
 # attributes of self that hold another translated object: (class, attribute) -> (module, class)
 ATTR_CLASS = {("HSM2SignerHeartbeat", "dongle"): ("ledger.hsm2dongle", "HSM2Dongle"),
+              ("PowHsmAttestation", "dongle"): ("ledger.hsm2dongle", "HSM2Dongle"),
               ("HSM2UIHeartbeat", "dongle"): ("ledger.hsm2dongle", "HSM2Dongle"),
               ("HSM1ProtocolLedger", "hsm2dongle"): ("ledger.hsm2dongle", "HSM2Dongle"),
               ("HSM1ProtocolLedger", "protocol_v2"): ("ledger.protocol", "HSM2ProtocolLedger"),
@@ -205,6 +210,17 @@ class Module:
         self.tree = ast.parse(self.src)
         self.funcs = {n.name: n for n in self.tree.body if isinstance(n, ast.FunctionDef)}
         self.classes = {n.name: n for n in self.tree.body if isinstance(n, ast.ClassDef)}
+        # names assigned exactly once at module level to a literal of a simple type
+        cnt, lit = {}, {}
+        for n in self.tree.body:
+            if isinstance(n, ast.Assign):
+                for t in n.targets:
+                    if isinstance(t, ast.Name):
+                        cnt[t.id] = cnt.get(t.id, 0) + 1
+                        if isinstance(n.value, ast.Constant) and isinstance(n.value.value, (bytes, str, int)) \
+                                and not isinstance(n.value.value, bool):
+                            lit[t.id] = n.value.value
+        self.consts = {k_: v_ for k_, v_ in lit.items() if cnt[k_] == 1}
         # names imported from other modules of the repository: local name -> (module, name)
         self.imports = {}
         for n in self.tree.body:
@@ -391,6 +407,7 @@ class FuncTr:
     def __init__(self, gen, m, cls, fd, has_self):
         self.gen, self.m, self.cls, self.fd, self.has_self = gen, m, cls, fd, has_self
         self.opaque = set()
+        self.local_names = set(assigned_names(fd.body)) | {a.arg for a in fd.args.args}
         self.tainted = {}       # variable -> keys a callee replaced in place (aliasing is not modelled)
         self.inherited_mut = set()
         self.mut = set()        # (parameter index, key) this function assigns through a parameter
@@ -451,10 +468,14 @@ class FuncTr:
         if isinstance(st, ast.Raise) and self.M and isinstance(st.exc, ast.Name) and st.exc.id in self.excvars:
             return "PRaiseX e_%s" % ident(st.exc.id)
         if isinstance(st, ast.Raise):
+            if isinstance(st.exc, ast.Call) and any(self.fmt_raises(a) for a in st.exc.args):
+                return "PRaise TypeError"
             x = self.exc_of(st)
             return ("PRaiseX %s" % x[2:]) if x.startswith("@X") else ("PRaise %s" % x)
         if isinstance(st, ast.Expr):
             lc = self.is_log_call(st.value)
+            if lc:
+                need(not any(self.fmt_raises(a) for a in st.value.args), "eagerly formatted log text with an arity mismatch", st)
             if lc == "unsafe":
                 # a log call one of whose arguments is a computation that may raise: the arguments are
                 # evaluated in order for that effect, their values are dropped
@@ -500,6 +521,16 @@ class FuncTr:
         if isinstance(st, ast.Assign):
             need(len(st.targets) == 1, "multiple assignment targets", st)
             return self.assign(st.targets[0], st.value, rest, k, ret, st)
+        if isinstance(st, ast.AugAssign) and isinstance(st.target, ast.Subscript) and isinstance(st.target.value, ast.Name) \
+                and isinstance(st.op, ast.Add) and not isinstance(st.target.slice, ast.Slice):
+            # d[k] += x : the key is evaluated once, the item read, the sum stored back
+            need(st.target.value.id not in self.params, "augmented assignment through a parameter", st)
+            n = self.v(st.target.value.id)
+            kt, ot, t, nt = self.fresh(), self.fresh(), self.fresh(), self.fresh()
+            return ("pbind (%s) (fun %s => pbind (py_getitem %s %s) (fun %s => pbind (%s) (fun %s => pbind (py_add %s %s) (fun %s => "
+                    "pbind (py_setitem %s %s %s) (fun %s =>\n%s)))))" % (
+                        self.expr(st.target.slice), kt, n, kt, ot, self.expr(st.value), t, ot, t, nt, n, kt, nt, n,
+                        self.stmts(rest, k, ret)))
         if isinstance(st, ast.AugAssign):
             need(isinstance(st.target, ast.Name) and isinstance(st.op, (ast.Add, ast.Sub)), "augmented assignment", st)
             op = "py_add" if isinstance(st.op, ast.Add) else "py_sub"
@@ -510,7 +541,7 @@ class FuncTr:
         if isinstance(st, ast.While):
             return self.while_(st, rest, k, ret)
         if isinstance(st, ast.Break):
-            need(self.loop_tups, "break outside a translated while loop", st)
+            need(self.loop_tups and self.loop_tups[-1] != "@none", "break outside a translated loop", st)
             if self.loop_tups[-1].startswith("@M"):
                 return "POk (VList [VInt 1%%Z; %s])" % self.loop_tups[-1][2:]
             return "POk (VList [VBool false; %s])" % self.loop_tups[-1]
@@ -551,6 +582,8 @@ class FuncTr:
                 mp["dispatch_st"], self.v(self.selfname), a[0], rq, self.v(tgt.id), rq, self.stmts(rest, k, ret)))
         is_opaque = self.is_opaque_expr(value)
         if isinstance(tgt, ast.Name):
+            if is_opaque and self.fmt_raises(value):
+                return "PRaise TypeError"
             if is_opaque:
                 self.opaque.add(tgt.id)
                 return self.stmts(rest, k, ret)
@@ -753,8 +786,10 @@ class FuncTr:
 
     def for_(self, st, rest, k, ret):
         need(not st.orelse, "for-else", st)
-        need(not contains_at_level(st.body, (ast.Break, ast.Continue)), "break / continue in a for loop", st)
-        returning = contains(st.body, (ast.Return,))
+        need(not contains_at_level(st.body, (ast.Continue,)), "continue in a for loop", st)
+        breaking = contains_at_level(st.body, (ast.Break,))
+        need(self.M or not breaking, "break in a for loop", st)
+        returning = contains(st.body, (ast.Return,)) or breaking
         need(self.M or not returning, "for body returns", st)
         if isinstance(st.target, ast.Name):
             tnames = [st.target.id]
@@ -769,18 +804,23 @@ class FuncTr:
         it = self.fresh()
         itx = self.expr(st.iter)
         if returning:
+            self.loop_tups.append("@M" + tup if breaking else "@none")
             body = self.stmts(st.body, "POk (VList [VInt 0%%Z; %s])" % tup,
                               lambda e: "pbind (%s) (fun rv_ => POk (VList [VInt 2%%Z; rv_]))" % e)
+            self.loop_tups.pop()
         else:
+            self.loop_tups.append("@none")
             body = self.stmts(st.body, "POk (%s)" % tup, lambda e: "PStuck")
+            self.loop_tups.pop()
         if tpat is None:
             body = "match x_ with VList [%s] => %s | _ => PStuck end" % ("; ".join(self.v(n) for n in tnames), body)
             tpat = "x_"
         kk = self.stmts(rest, k, ret)
         if returning:
-            return ("pbind (%s) (fun %s => pbind (py_for_t %s (%s) (fun st_ %s => match st_ with %s => %s | _ => PStuck end))\n"
+            return ("pbind (%s) (fun %s => pbind (%s %s (%s) (fun st_ %s => match st_ with %s => %s | _ => PStuck end))\n"
                     "  (fun r_ => match r_ with\n   | VList [VInt 2%%Z; rv_] => %s\n   | VList [VInt 1%%Z; %s] => %s\n"
-                    "   | _ => PStuck end))" % (itx, it, it, init_tup, tpat, tup, body, ret("POk rv_"), tup, kk))
+                    "   | _ => PStuck end))" % (itx, it, "py_for_tb" if breaking else "py_for_t", it, init_tup, tpat, tup,
+                                                 body, ret("POk rv_"), tup, kk))
         return ("pbind (%s) (fun %s => pbind (py_for %s (%s) (fun st_ %s => match st_ with %s => %s | _ => PStuck end))\n"
                 "  (fun st_ => match st_ with %s => %s | _ => PStuck end))"
                 % (itx, it, it, init_tup, tpat, tup, body, tup, kk))
@@ -838,6 +878,30 @@ class FuncTr:
                 a.func.attr in ("hex", "capitalize", "lower", "upper") and not a.args:
             return self.safe_arg(a.func.value)
         return False
+
+    def fmt_raises(self, e):
+        """`"text" % args` whose number of conversion specifiers differs from the number of arguments raises
+        TypeError when evaluated - the one way the construction of a message does have an effect.  True = it
+        certainly raises; undecidable mismatches are rejected."""
+        if not (isinstance(e, ast.BinOp) and isinstance(e.op, ast.Mod) and isinstance(e.left, ast.Constant)
+                and isinstance(e.left.value, str)):
+            return False
+        import re as _re
+        specs = [m_ for m_ in _re.finditer(r"%(\([^)]*\))?[#0\- +]*(\*|\d+)?(\.(\*|\d+))?[hlL]?(.)", e.left.value)]
+        need(all(m_.group(5) in "diouxXeEfFgGcrsa%" for m_ in specs), "format string %r" % e.left.value, e)
+        need(not any(m_.group(1) for m_ in specs), "mapping format string", e)
+        n = len([m_ for m_ in specs if m_.group(5) != "%"]) + sum(m_.group(0).count("*") for m_ in specs)
+        if isinstance(e.right, ast.Tuple):
+            return len(e.right.elts) != n
+        if n == 1:
+            return False
+        # a single non-tuple argument for a format with no (or several) specifiers: raises unless the
+        # argument is itself a tuple of the right length or (no specifiers) a mapping - decide for constants only
+        val = self.chain_const(e.right) if isinstance(e.right, ast.Attribute) else (
+            e.right.value if isinstance(e.right, ast.Constant) else NOTCONST)
+        need(val is not NOTCONST and isinstance(val, (int, str, bytes, float)) and not isinstance(val, bool) or
+             isinstance(val, bool), "format arity cannot be decided", e)
+        return True
 
     def is_opaque_expr(self, e):
         if isinstance(e, ast.JoinedStr):
@@ -1010,6 +1074,11 @@ class FuncTr:
                 return "(VType %s)" % TYPES[e.id]
             need(e.id not in self.opaque, "formatted text %s used as a value" % e.id, e)
             need(e.id not in self.excvars, "exception object %s used as a value" % e.id, e)
+            if e.id not in self.params and e.id not in self.local_names and e.id in self.m.consts:
+                # a module-level constant (assigned once at module level to a literal)
+                c = const_val(self.m.consts[e.id])
+                need(c is not None, "module constant %s" % e.id, e)
+                return c
             if e.id in self.params or True:
                 return self.v(e.id)
         if isinstance(e, ast.Attribute) and isinstance(e.value, ast.Name) and e.value.id == self.selfname:
